@@ -390,6 +390,9 @@ func (h *H) offerForged(m *Mon, v variant) {
 		// the follower now holds a block the publisher does not have: from here on it runs alone
 		_ = synced
 		h.diverged = true
+		if v.Legacy {
+			h.injectSpendOfHugeHours()
+		}
 		return
 	}
 	h.R.Count("forge.rejected."+classOf(v.Label), 1)
@@ -466,4 +469,38 @@ func sigOnlyConds(conds []ledger.Cond) bool {
 		}
 	}
 	return len(conds) > 0
+}
+
+// injectSpendOfHugeHours: an output whose starting hours are close to 2^64 (they exist after a
+// legacy-class block) is spendable only while the head time equals its creation time: one second
+// later the addition "starting hours + earned hours" no longer fits. A transaction spending it is
+// pooled now (in the follower's pool, which nobody publishes from), so that it turns hard-invalid by the passage of time and
+// the pool's refresh / removal passes must deal with it.
+func (h *H) injectSpendOfHugeHours() {
+	m := h.Fol
+	pooled := map[cipher.SHA256]bool{}
+	for _, e := range m.M.Pool {
+		for _, in := range e.Txn.In {
+			pooled[in] = true
+		}
+	}
+	for _, ux := range sortedUtxo(m.M) {
+		if ux.Body.Hours < 1<<63 || ux.Body.Coins == 0 || m.M.P.Locked[ux.Body.Address] || pooled[ledger.UxID(ux)] {
+			continue
+		}
+		if _, ok := h.Chain.KeyFor(ux.Body.Address); !ok {
+			continue
+		}
+		acc, cls := ledger.Accrued(ux, m.M.HeadTime())
+		if cls != ledger.AccrualOK || !ledger.Fits(acc) {
+			continue
+		}
+		// all hours are burnt: once the input's hours stop being computable, the in-block rules
+		// (which count such an input as zero hours) still find the outputs covered, the
+		// single-transaction rules do not
+		t := h.Chain.MakeTxn([]coin.UxOut{ux}, []fix.Out{{Addr: h.randAddr(), Coins: ux.Body.Coins, Hours: 0}})
+		h.R.Count("gen.huge-hours-input", 1)
+		h.inject(m, t, "valid/huge-hours-input", true)
+		return
+	}
 }
